@@ -98,7 +98,7 @@ func H_Cache() {
 	lookup := func() bool {
 		b := vp.Choose("at", n)
 		k := vp.Choose("key", nk)
-		via := vp.Choose("via", 3)
+		via := vp.Choose("via", vp.Param("vias", 5))
 		var got statecache.Value
 		var hit bool
 		if vp.NoPanic("C06.nopanic", func() {
@@ -111,6 +111,11 @@ func H_Cache() {
 			case 2:
 				nb := statecache.NewBlockCache(sc, statecache.Block{Round: 99, Hash: "probe", PrevHash: bs[b].hash})
 				got, hit = statecache.NewTransactionCache(nb).Get(keys[k])
+			case 3:
+				// the block's own handle, before or after its commit
+				got, hit = bs[b].bc.Get(keys[k])
+			case 4:
+				got, hit = statecache.NewTransactionCache(bs[b].bc).Get(keys[k])
 			}
 		}) {
 			return false
